@@ -139,7 +139,7 @@ func runC12(seed uint64, n int, tier string) {
 }
 
 func runC12Case(id string, c *c12Case) {
-	defer recoverCase(id, c)
+	defer watchCase(id, c)()
 	rx := map[string]string{}
 	for _, e := range loadRegexes() {
 		rx[e.Name] = e.Src
